@@ -106,6 +106,14 @@ class F:
 
 NAN = F(Fraction(0), True)
 
+# exact values of the f64 associated constants a crate may name
+FLOAT_CONSTS = {
+    "EPSILON": Fraction(1, 2 ** 52),
+    "MAX": Fraction((2 ** 53 - 1) * 2 ** (1023 - 52)),
+    "MIN": -Fraction((2 ** 53 - 1) * 2 ** (1023 - 52)),
+    "MIN_POSITIVE": Fraction(1, 2 ** 1022),
+}
+
 # Division encoding. 'div': z3 real division. 'inv': x / y is written x * inv(y) with inv an uninterpreted function and the
 # field axiom y != 0 => y * inv(y) = 1 recorded per distinct denominator; identities between expressions that divide by the
 # same terms then become polynomial identities over the atoms inv(t).
@@ -497,12 +505,13 @@ class Machine:
             return F(Fraction(m.group(1).replace("_", "")))
         if t in ("f64::NAN", "core::f64::NAN", "NAN", "f64::consts::NAN") or t.endswith("::NAN"):
             return NAN
+        last = t.rsplit("::", 1)[-1]
+        if ("f64" in t or "consts" in t) and last in FLOAT_CONSTS:
+            return F(FLOAT_CONSTS[last])
         if t.endswith("::NEG_INFINITY"):
             return F(Fraction(0), False, -1)
         if t.endswith("::INFINITY"):
             return F(Fraction(0), False, 1)
-        if t in ("f64::MAX", "f64::MIN"):
-            raise Unsupported("constant " + t)
         if t.startswith('"'):
             return ("str", t)
         m = re.search(r"::promoted\[(\d+)\]$", t)
